@@ -73,6 +73,15 @@ static void b_push(const Args &a) {
     int id = (int)a.num("obj"); var(id).push_back((unsigned char)a.num("value"));
     Ev ev("ba.push"); ev.n("obj", id).n("value", a.num("value")); log_all(ev); ev.emit();
 }
+// the pushed value is an element of a byte_array (possibly the same one), passed as the expression itself
+static void b_push_from(const Args &a) {
+    int id = (int)a.num("obj"), src = (int)a.num("src"); size_t pos = (size_t)a.num("pos"); std::string via = a.str("via", "index");
+    if (via == "index") var(id).push_back(var(src)[pos]);
+    else if (via == "cindex") var(id).push_back(static_cast<const ascon::byte_array &>(var(src))[pos]);
+    else if (via == "data") var(id).push_back(var(src).data()[pos]);
+    else var(id).push_back(*(var(src).begin() + pos));
+    Ev ev("ba.push_from"); ev.n("obj", id).n("src", src).n("pos", (long long)pos).s("via", via); log_all(ev); ev.emit();
+}
 static void b_pop(const Args &a) {
     int id = (int)a.num("obj"); var(id).pop_back();
     Ev ev("ba.pop"); ev.n("obj", id); log_all(ev); ev.emit();
@@ -112,7 +121,7 @@ static void u_from_hex(const Args &a) {
 }
 void reg_extra() {
     reg("ba.new", b_new); reg("ba.assign", b_assign); reg("ba.index_set", b_index_set); reg("ba.index_get", b_index_get);
-    reg("ba.data_set", b_data_set); reg("ba.resize", b_resize); reg("ba.reserve", b_reserve); reg("ba.push", b_push);
+    reg("ba.data_set", b_data_set); reg("ba.resize", b_resize); reg("ba.reserve", b_reserve); reg("ba.push", b_push); reg("ba.push_from", b_push_from);
     reg("ba.pop", b_pop); reg("ba.clear", b_clear); reg("ba.cmp", b_cmp); reg("ba.iter", b_iter); reg("ba.del", b_del);
     reg("reset", b_reset); reg("util.from_hex", u_from_hex);
 }
